@@ -85,6 +85,34 @@ type gTopic struct {
 	Name     string
 	Kind     string // publish upsert event reqres
 	Messages []string
+	Unnamed  bool // publish topic with a single `message { ... }` (named after the topic by the compiler)
+}
+
+// nameVariant draws a declaration name from the class the compiler accepts, beyond plain CamelCase: names that are
+// not fixed points of strcase.ToCamel / ToSnake (lower-case start, underscore, a digit followed by a lower-case
+// letter, acronyms). upperOnly: the name must match ^[A-Z][A-Za-z0-9]+$ (named topic messages).
+func nameVariant(r *vh.Rand, base string, upperOnly bool) string {
+	switch r.Intn(9) {
+	case 0:
+		return base + "2go" // digit followed by lower case: ToCamel gives ...2Go
+	case 1:
+		return "HTTP" + base // acronym
+	case 2:
+		return base + "3flush"
+	case 3:
+		if !upperOnly {
+			return strings.ToLower(base[:1]) + base[1:] // lower-case start
+		}
+	case 4:
+		if !upperOnly {
+			return base + "_ext" // underscore
+		}
+	case 5:
+		if !upperOnly {
+			return "level2" + strings.ToLower(base)
+		}
+	}
+	return base
 }
 
 type gEntity struct {
@@ -100,7 +128,7 @@ type gPackage struct {
 	Entity   *gEntity
 	FlatHost string // a named object with a flattened object field whose children are referenced by nothing else
 	Clash    string // "" | "case": enum options differing only in case | "split": Host_Inner collides with Host's inline Inner
-	Awkward  bool // uses property names whose JSON name is not the protobuf default of the snake name
+	Awkward  bool   // uses property names whose JSON name is not the protobuf default of the snake name
 }
 
 var scalarSpecs = []gTy{
@@ -119,6 +147,7 @@ var pathSpecs = []gTy{
 }
 
 var safeWords = []string{"name", "title", "barId", "accountId", "count", "flag", "kind", "note", "amount", "when", "owner", "parentRef", "itemCode", "labelText", "weight", "extra", "tag", "memo", "score", "level"}
+
 // single-word names with capitals (ID, URL, Label): the proto name has no underscore and the JSON name still differs (seeded C05-E)
 var awkwardWords = []string{"fooID", "a1b", "HTTPServer", "x2", "userURL", "v2Id", "ID", "URL", "Label"}
 var nouns = []string{"Thing", "Widget", "Order", "Invoice", "Gadget", "Parcel", "Ticket", "Ledger"}
@@ -129,8 +158,8 @@ type gctx struct {
 	schemas  []gSchema
 	awkward  bool
 	clash    string // set when a property was given an enum default filter that names no option
-	decorate bool // descriptions and validation rules with characters that need escaping (C05)
-	inline   bool // inline nested objects / oneofs / enums, optional and required marks
+	decorate bool   // descriptions and validation rules with characters that need escaping (C05)
+	inline   bool   // inline nested objects / oneofs / enums, optional and required marks
 }
 
 // ("service" is not in the list: object service collides with the sub-package <pkg>.service, a compile error)
@@ -347,7 +376,7 @@ func (g *gctx) listRules(p *gProp) {
 		if strings.HasPrefix(p.Ty.Ref, "Kind") {
 			def := `["ALPHA"]`
 			if g.clash == "" && g.r.Chance(4) {
-				def = `["NOPE"]` // names no option: the compiler accepts it, buildListRequest does not (NOTICE-4 style class)
+				def = `["NOPE"]` // names no option: a compile error since /repo fb0e252 (before: accepted, buildListRequest failed)
 				g.clash = "enumdefault"
 			}
 			p.Attrs = append(p.Attrs, "listRules.filtering.filterable = true", "listRules.filtering.defaultFilters = "+def)
@@ -355,7 +384,8 @@ func (g *gctx) listRules(p *gProp) {
 	}
 }
 
-// forcedClash: when >= 0, the next generated package takes this arm of the rare-class switch (0 case, 1 split, 2 enumdefault)
+// forcedClash: when >= 0, the next generated package takes this arm of the rare-class switch (0 case, 1 split, 2 enumdefault,
+// 3 badlist). 0 and 3 are classes the compiler rejects since /repo 4fb405b / cec4e3a: a run checks that it does.
 var forcedClash = -1
 
 func genPackage(r *vh.Rand, awkward bool) *gPackage { return genPackageOpt(r, awkward, false) }
@@ -455,7 +485,17 @@ func genPackageOpt(r *vh.Rand, awkward, decorate bool) *gPackage {
 		pickClash, forcedClash = forcedClash, -1
 	}
 	defItem := false
+	badList := false
 	switch pickClash {
+	case 4: // topic / message names that are not fixed points of strcase.ToCamel (seeded C16-F), pinned
+		p.Topics = append(p.Topics,
+			gTopic{Name: "level2cache", Kind: "publish", Unnamed: true},
+			gTopic{Name: "Mixed_feed", Kind: "publish", Messages: []string{"Level3flush", "HTTPDone"}},
+			gTopic{Name: "snake_topic", Kind: "event", Messages: []string{"Unused"}},
+			gTopic{Name: "Ack2me", Kind: "reqres", Messages: []string{"Do2it"}})
+	case 3: // a list method whose response has two arrays / no array: rejected by the compiler since /repo cec4e3a
+		badList = true
+		p.Clash = "badlist"
 	case 2: // an enum field whose default filter names no option, in the item object of a list method
 		g.schemas = append(g.schemas,
 			gSchema{Name: "DefKind", Kind: "enum"},
@@ -486,7 +526,7 @@ func genPackageOpt(r *vh.Rand, awkward, decorate bool) *gPackage {
 			noun = vh.Pick(r, nouns)
 		}
 		usedNoun[noun] = true
-		sv := gService{Name: noun, BasePath: "/" + strings.ReplaceAll(p.Pkg, ".", "/") + "/" + strings.ToLower(noun)}
+		sv := gService{Name: nameVariant(r, noun, false), BasePath: "/" + strings.ReplaceAll(p.Pkg, ".", "/") + "/" + strings.ToLower(noun)}
 		nm := r.Range(1, 4)
 		for k := 0; k < nm; k++ {
 			sv.Methods = append(sv.Methods, g.method(noun, k))
@@ -497,8 +537,19 @@ func genPackageOpt(r *vh.Rand, awkward, decorate bool) *gPackage {
 		item := gTy{Kind: "object", Ref: "DefItem"}
 		sv := &p.Services[0]
 		sv.Methods = append(sv.Methods, gMethod{Name: "Get" + sv.Name + "Defaults", Verb: "GET", List: true, Path: "/defaults",
-			Req: []gProp{{Name: "page", Ty: gTy{Kind: "object", Ref: "j5.list.v1.PageRequest"}}, {Name: "query", Ty: gTy{Kind: "object", Ref: "j5.list.v1.QueryRequest"}}},
+			Req:  []gProp{{Name: "page", Ty: gTy{Kind: "object", Ref: "j5.list.v1.PageRequest"}}, {Name: "query", Ty: gTy{Kind: "object", Ref: "j5.list.v1.QueryRequest"}}},
 			Resp: []gProp{{Name: "items", Ty: gTy{Kind: "array", Item: &item}}, {Name: "page", Ty: gTy{Kind: "object", Ref: "j5.list.v1.PageResponse"}}}})
+	}
+	if badList {
+		item, haveObj := g.refTy("object")
+		resp := []gProp{{Name: "items", Ty: gTy{Kind: "array", Item: &item}}, {Name: "more", Ty: gTy{Kind: "array", Item: &item}}}
+		if !haveObj || r.Chance(50) {
+			resp = []gProp{{Name: "page", Ty: gTy{Kind: "object", Ref: "j5.list.v1.PageResponse"}}}
+		}
+		sv := &p.Services[0]
+		sv.Methods = append(sv.Methods, gMethod{Name: "Get" + nouns[0] + "BadList", Verb: "GET", List: true, Path: "/badlist",
+			Req:  []gProp{{Name: "query", Ty: gTy{Kind: "object", Ref: "j5.list.v1.QueryRequest"}}},
+			Resp: resp})
 	}
 	if p.FlatHost != "" {
 		// the host is reached through a reference from a response (it is not itself a request / response root)
@@ -522,12 +573,18 @@ func genPackageOpt(r *vh.Rand, awkward, decorate bool) *gPackage {
 			}
 		}
 	}
-	if r.Chance(30) {
+	if len(p.Topics) == 0 && r.Chance(30) {
 		noun := vh.Pick(r, nouns)
-		p.Topics = append(p.Topics, gTopic{Name: noun + "Feed", Kind: vh.Pick(r, []string{"publish", "publish", "upsert", "event", "reqres"}), Messages: []string{"Do" + noun, "Undo" + noun}[:r.Range(1, 2)]})
+		tp := gTopic{Name: nameVariant(r, noun+"Feed", false), Kind: vh.Pick(r, []string{"publish", "publish", "upsert", "event", "reqres"}),
+			Messages: []string{nameVariant(r, "Do"+noun, true), "Undo" + noun}[:r.Range(1, 2)]}
+		if tp.Kind == "publish" && r.Chance(35) {
+			tp.Unnamed, tp.Messages = true, nil
+		}
+		p.Topics = append(p.Topics, tp)
 	}
 	if r.Chance(25) {
-		noun := vh.Pick(r, []string{"Account", "Shipment", "Policy"})
+		// entity names beyond plain CamelCase: the generated service / topic names go through strcase.ToCamel
+		noun := vh.Pick(r, []string{"Account", "Shipment", "Policy", "Account", "Shipment", "Policy", "Account2x", "HTTPPolicy"})
 		p.Entity = &gEntity{Name: noun, Data: g.props(r.Range(1, 3))}
 	}
 	if p.Clash == "" && g.clash != "" {
@@ -540,6 +597,19 @@ func (g *gctx) method(noun string, k int) gMethod {
 	r := g.r
 	verb := vh.Pick(r, []string{"GET", "GET", "POST", "PUT", "DELETE", "PATCH"})
 	m := gMethod{Name: fmt.Sprintf("%s%s%d", map[string]string{"GET": "Get", "POST": "Create", "PUT": "Replace", "DELETE": "Remove", "PATCH": "Update"}[verb], noun, k), Verb: verb}
+	if r.Chance(30) {
+		// method names are free-form for the compiler (they name the rpc and its Request / Response messages)
+		switch r.Intn(4) {
+		case 0:
+			m.Name = strings.ToLower(m.Name[:1]) + m.Name[1:]
+		case 1:
+			m.Name = "HTTP" + m.Name
+		case 2:
+			m.Name += "x" // digit followed by lower case
+		case 3:
+			m.Name = strings.ToLower(m.Name[:3]) + "_" + m.Name[3:]
+		}
+	}
 	if verb == "GET" && r.Chance(30) {
 		if item, ok := g.refTy("object"); ok {
 			m.List = true
@@ -753,6 +823,9 @@ func (p *gPackage) text() string {
 			fmt.Fprintf(&sb, "topic %s reqres {\n\trequest %s {\n\t\tfield note string\n\t}\n\treply %sDone {\n\t\tfield note string\n\t}\n}\n\n", tp.Name, tp.Messages[0], tp.Messages[0])
 		default:
 			fmt.Fprintf(&sb, "topic %s publish {\n", tp.Name)
+			if tp.Unnamed {
+				sb.WriteString("\tmessage {\n\t\tfield note string\n\t}\n")
+			}
 			for _, m := range tp.Messages {
 				fmt.Fprintf(&sb, "\tmessage %s {\n\t\tfield note string\n\t}\n", m)
 			}
